@@ -146,7 +146,7 @@ P("C11", "other",
   "against hand-written formulas, generated context stacks (precedence, parameter inheritance, redefinitions).",
   "ChainMap lookup order is an assumed contract of collections.ChainMap; Relation.transformation evaluates rule text with parse_expression (C07).",
   MIXED + ": proved = ordering of the active chain; bounded = shortest chain, rule application, parameter precedence, redefinitions.",
-  standins=["standins.c11_contexts"])
+  standins=["standins.c11_contexts", "standins.c11_history"])
 P("C12", "other",
   "Deductive: the active stack after insert; remove is the original stack (lemma over the real ContextChain methods); "
   "context() restores the stack on normal AND exceptional exit of the with-body (try/finally of the real generator); "
@@ -167,11 +167,18 @@ P("C13", "other",
   MIXED + ": proved = memo coherence of the three registry memos; bounded = history independence over sequences of <= 2 (quick) / 4 (thorough) operations.",
   standins=["standins.c13_history", "standins.c13_inplace_memo"])
 P("C14", "other",
-  "Deductive: the default_system setter (unknown names rejected, memo reset also for None). Bounded: base units for every "
-  "multiplicative unit x 7 systems against an independent reading of the @system blocks and exact factors; group closure over "
-  "all `using` DAGs on <= 4 groups with edit sequences; rule inversion catalogue; restricted compatible units; system attribute access.",
-  "Group/System objects are not under contract.",
-  MIXED + ": proved = default_system setter; bounded = everything else.", standins=["standins.c14_systems"])
+  "Deductive: the default_system setter (unknown names rejected, memo reset also for None); the membership-memo discipline of "
+  "Group and System objects: Group.add_units / remove_units / add_groups / remove_groups and System.add_groups / remove_groups "
+  "change exactly the stated sets (both views `_used_groups` / `_used_by` of the `using` relation) and end with the memo of the "
+  "edited object, of every group that uses it and of every system dropped; an invalidation never sets a memo. Bounded: base units "
+  "for every multiplicative unit x 7 systems against an independent reading of the @system blocks and exact factors; group closure "
+  "over all `using` DAGs on <= 4 groups with edit sequences; rule inversion catalogue; restricted compatible units; system attribute access.",
+  "Group.members / System.members (the closure itself: a recursion through the generator iter_used_groups) were attempted and are "
+  "not discharged (8 of 25 and 4 of 22 obligations undecided after 200 s); they stay bounded. Group.is_used_group is an assumed contract "
+  "(modifies nothing). The registry-wide invariant groups_wf (names registered under their own name, set objects not shared) is a "
+  "precondition, established by Group.__init__, which is not under contract.",
+  MIXED + ": proved = default_system setter and the invalidation discipline of the six edit operations; bounded = everything else.",
+  standins=["standins.c14_systems"])
 P("C15", "other",
   "Deductive: Quantity.to / ito / _convert_magnitude are verified (not assumed): DimensionalityError iff the dimensionalities "
   "differ, otherwise the physical value and the dimensionality are preserved, the operand of to() is untouched and ito() leaves "
@@ -188,13 +195,13 @@ P("C16", "other",
   "for every function pint handles, results are compared with NumPy applied to root-unit magnitudes with the unit implied by an "
   "independently written homogeneity table; re-expression invariance; incompatible inputs; offset units; in-place.",
   "NumPy itself is an assumed dependency; the implement() wrappers are not under contract.",
-  MIXED + ": proved = unit bookkeeping of power-like operations; bounded = the function catalogue.", standins=["standins.c16_numpy", "standins.c16_reductions"])
+  MIXED + ": proved = unit bookkeeping of power-like operations; bounded = the function catalogue.", standins=["standins.c16_numpy", "standins.c16_reductions", "standins.c16_unitops"])
 P("C17", "other",
   "Deductive: _to_units_container (the '=name' reference syntax of wraps is split exactly at the first '='). Bounded: generated "
   "signatures (1-4 parameters, positional/keyword/default) x unit-spec kinds for wraps and check, exact in a Fraction registry, "
   "arguments recorded inside the wrapped function.",
   "_parse_wrap_args / _apply_defaults and the wrappers are not under contract.",
-  MIXED + ": proved = spec parsing helper; bounded = decorator behaviour.", standins=["standins.c17_wraps", "standins.c17_dimensionless", "standins.c01_check_kwargs"])
+  MIXED + ": proved = spec parsing helper; bounded = decorator behaviour.", standins=["standins.c17_wraps", "standins.c17_dimensionless", "standins.c01_check_kwargs", "standins.c17_offset"])
 P("C18", "other",
   "Deductive/structural: SharedRegistryObject._check (same registry -> True, other registry -> ValueError, non-pint -> False); "
   "every binary operator of Quantity reaches _check before combining; every exception class's __reduce__ matches its __init__. "
